@@ -28,57 +28,75 @@ ResetAll ==
     /\ committed' = <<>> /\ pOut' = <<>> /\ pSent' = 0 /\ pSn' = 0 /\ pNesn' = 0
     /\ stored' = <<>> /\ delivered' = <<>> /\ rxCtr' = 0 /\ txCtr' = 0 /\ air' = <<>>
 
+\* cheap observations logged with every call: pending_outgoing_data_available(), next_received().size != 0
+ObsOK(ev) ==
+    /\ ev.pending = (Len(committed') > txCtr')
+    /\ ev.rxhead  = (stored' # <<>>)
+
 ExplainX(ev) ==
     \E ackC, dataC \in BOOLEAN :
         /\ Exchange(CP(ev), ev.out, ackC, dataC)
         /\ IF ev.out = "lost"
            THEN ~ev.resp
            ELSE ev.resp /\ ev.pok /\ air' = <<RP(ev)>>
+        /\ ObsOK(ev)
 
 Explain(ev) ==
     \/ ev.e = "Reset"  /\ ResetAll
-    \/ ev.e = "commit" /\ Commit([id |-> ev.id, len |-> ev.len, llid |-> ev.llid], ev.r)
-    \/ ev.e = "read"   /\ Read([id |-> ev.id, len |-> ev.len, llid |-> ev.llid]) /\ ev.ok
+    \/ ev.e = "commit" /\ Commit([id |-> ev.id, len |-> ev.len, llid |-> ev.llid], ev.r) /\ ObsOK(ev)
+    \/ ev.e = "read"   /\ Read([id |-> ev.id, len |-> ev.len, llid |-> ev.llid]) /\ ev.ok /\ ObsOK(ev)
     \/ ev.e = "x"      /\ ExplainX(ev)
     \/ ev.e = "crx"    /\ CentralRx(ev.pout)
                        /\ ev.csn = cSn' /\ ev.cnesn = cNesn' /\ ev.cfree = (cCur' = <<>>) /\ ev.cgot = Len(cGot')
 
-\* which obligation failed (for signatures; evaluated in the state before the event)
+\* ---- diagnosis of a rejected event (for the finding signature only; evaluated in the state before the event) ----
+Failing(pairs) == LET f == SelectSeq(pairs, LAMBDA p : p[2]) IN [i \in 1..Len(f) |-> f[i][1]]
+
 DiagX(ev) ==
     LET c == CP(ev)
         r == RP(ev)
         a == Answer(c, ev.out, TRUE, TRUE)            \* nesn and rxinc do not depend on the choices
         fits(b) == b.sn = r.sn /\ b.pdu = r.pdu
+        anyfit == \E ackC, dataC \in BOOLEAN : fits(Answer(c, ev.out, ackC, dataC))
         cls == <<ev.out, IF c.sn = pNesn THEN "new" ELSE "retx", IF IsData(c.pdu) THEN "data" ELSE "empty",
                  IF pOut # <<>> /\ c.nesn # pOut[1].sn THEN "acks" ELSE "noack">>
-        what == IF air # <<>> \/ ~CentralSends(c) \/ ev.out \notin Outcomes THEN "harness"
-                ELSE IF ev.out = "lost" THEN (IF ev.resp THEN "answer-to-lost" ELSE "other")
-                ELSE IF ~ev.resp THEN "no-answer"
-                ELSE IF ev.out = "nobuf" /\ stored = <<>> THEN "nobuf-while-empty"
-                ELSE IF r.nesn # a.nesn THEN "nesn"
-                ELSE IF r.rxinc # a.rxinc THEN "rxinc"
-                ELSE IF ~\E ackC, dataC \in BOOLEAN : fits(Answer(c, ev.out, ackC, dataC))
-                     THEN (IF pOut # <<>> /\ r.sn = pOut[1].sn THEN "retransmission-differs"
-                           ELSE IF \E ackC, dataC \in BOOLEAN : Answer(c, ev.out, ackC, dataC).new THEN "new-pdu-wrong"
-                           ELSE "new-pdu-without-ack")
-                ELSE IF ~\E ackC, dataC \in BOOLEAN : fits(Answer(c, ev.out, ackC, dataC)) /\ Answer(c, ev.out, ackC, dataC).txinc = r.txinc
-                     THEN "txinc"
-                ELSE IF ~ev.pok THEN "payload"
-                ELSE "other"
-    IN  <<what>> \o cls
+        what == IF air # <<>> \/ ~CentralSends(c) \/ ev.out \notin Outcomes THEN <<"harness">>
+                ELSE IF ev.out = "lost" THEN (IF ev.resp THEN <<"answer-to-lost">> ELSE <<"other">>)
+                ELSE IF ~ev.resp THEN <<"no-answer">>
+                ELSE Failing(<<
+                    <<"nobuf-while-empty", RoomRule /\ ev.out = "nobuf" /\ stored = <<>> >>,
+                    <<"nesn", r.nesn # a.nesn>>,
+                    <<"rxinc", r.rxinc # a.rxinc>>,
+                    <<"retransmission-differs", ~anyfit /\ pOut # <<>> /\ r.sn = pOut[1].sn>>,
+                    <<"new-pdu-without-ack", ~anyfit /\ pOut # <<>> /\ r.sn # pOut[1].sn
+                                             /\ ~\E ackC, dataC \in BOOLEAN : Answer(c, ev.out, ackC, dataC).new>>,
+                    <<"new-pdu-wrong", ~anyfit /\ (pOut = <<>> \/ r.sn # pOut[1].sn)
+                                       /\ \E ackC, dataC \in BOOLEAN : Answer(c, ev.out, ackC, dataC).new>>,
+                    <<"txinc", anyfit /\ ~\E ackC, dataC \in BOOLEAN :
+                                             /\ fits(Answer(c, ev.out, ackC, dataC))
+                                             /\ Answer(c, ev.out, ackC, dataC).txinc = r.txinc>>,
+                    <<"payload", ~ev.pok>>,
+                    <<"rxhead", ev.rxhead # (stored # <<>> \/ a.rxinc = 1)>>,
+                    <<"pending", ev.pending # (Len(committed) > txCtr + r.txinc)>> >>)
+    IN  <<IF what = <<>> THEN <<"other">> ELSE what, cls>>
 
 Diag(ev) ==
     CASE ev.e = "x"      -> DiagX(ev)
-      [] ev.e = "read"   -> <<IF ~ev.ok THEN "payload"
-                              ELSE IF stored = <<>> THEN "phantom"
-                              ELSE IF ev.id = 0 THEN "missing" ELSE "wrong-pdu">>
-      [] ev.e = "commit" -> <<IF ev.r THEN "harness" ELSE "refused-while-empty">>
-      [] OTHER           -> <<"harness">>
+      [] ev.e = "read"   -> <<Failing(<< <<"payload", ~ev.ok>>,
+                                         <<"phantom", stored = <<>> /\ ev.id # 0>>,
+                                         <<"missing", stored # <<>> /\ ev.id = 0>>,
+                                         <<"wrong-pdu", stored # <<>> /\ ev.id # 0 /\ ev.id # Head(stored).id>>,
+                                         <<"rxhead", ev.rxhead # (Len(stored) > 1)>>,
+                                         <<"pending", ev.pending # (Len(committed) > txCtr)>> >>), <<>> >>
+      [] ev.e = "commit" -> <<Failing(<< <<"refused-while-empty", RoomRule /\ ~ev.r /\ Len(committed) = txCtr>>,
+                                         <<"rxhead", ev.rxhead # (stored # <<>>)>>,
+                                         <<"pending", ev.pending # (Len(committed) + (IF ev.r THEN 1 ELSE 0) > txCtr)>> >>), <<>> >>
+      [] OTHER           -> << <<"harness">>, <<>> >>
 
-Resets == {i \in 1..Len(Tr) : Tr[i].e = "Reset"}
-NextReset(i) == IF \E j \in Resets : j > i
-                THEN CHOOSE j \in Resets : j > i /\ \A k \in Resets : k > i => j <= k
-                ELSE Len(Tr) + 1
+\* first Reset event after position i (executions are short: linear scan)
+RECURSIVE FirstReset(_)
+FirstReset(i) == IF i > Len(Tr) THEN Len(Tr) + 1 ELSE IF Tr[i].e = "Reset" THEN i ELSE FirstReset(i + 1)
+NextReset(i) == FirstReset(i + 1)
 
 TInit == Init /\ l = 1
 
